@@ -21,22 +21,26 @@ type YSite struct {
 }
 
 type RTPkgReport struct {
-	Name       string   `json:"name"`
-	PkgID      int      `json:"pkg_id"`
-	ImportPath string   `json:"import_path"`
-	Yields     []YSite  `json:"yields"`
-	MapSites   []Site   `json:"map_sites"`
-	SyncCalls  int      `json:"sync_calls_rewritten"`
-	SyncOther  []string `json:"sync_unsimulated"`
-	GoStmts    int      `json:"go_stmts"`
-	Selects    int      `json:"selects"`
-	ChanOps    int      `json:"chan_ops"`
-	Globals    []string `json:"globals"`
-	Types      []string `json:"types"`
-	Funcs      []string `json:"funcs"`
-	OneOf      []string `json:"one_of"`
-	UsesSync   bool     `json:"uses_sync"`
-	Accesses   int      `json:"accesses_reported"`
+	Name           string   `json:"name"`
+	PkgID          int      `json:"pkg_id"`
+	ImportPath     string   `json:"import_path"`
+	Yields         []YSite  `json:"yields"`
+	MapSites       []Site   `json:"map_sites"`
+	SyncCalls      int      `json:"sync_calls_rewritten"`
+	SyncOther      []string `json:"sync_unsimulated"`
+	GoStmts        int      `json:"go_stmts"`
+	Selects        int      `json:"selects"`
+	ChanOps        int      `json:"chan_ops"`
+	Globals        []string `json:"globals"`
+	Types          []string `json:"types"`
+	Funcs          []string `json:"funcs"`
+	OneOf          []string `json:"one_of"`
+	UsesSync       bool     `json:"uses_sync"`
+	Accesses       int      `json:"accesses_reported"`
+	GoRewritten    int      `json:"go_stmts_turned_into_tasks"`
+	SyncBracketed  int      `json:"blocking_statements_bracketed"`
+	SyncUnmodelled []string `json:"blocking_operations_not_modelled"`
+	SelectsPolled  int      `json:"selects_polled_in_tape_order"`
 }
 
 // InstrumentGenerated inserts statement-level yields, pins map iteration order and
@@ -66,7 +70,7 @@ func InstrumentGenerated(simDir, pattern string) ([]*RTPkgReport, error) {
 			}
 			es := &editSet{src: src}
 			// 1. map ranges pinned to sorted order (same rewriter as gensim, other hook package)
-			w := &genWalker{pkg: pkg, file: f, rel: rel, es: es, rep: gr, nextID: &mapID, hookPath: RTHook}
+			w := &genWalker{pkg: pkg, file: f, rel: rel, es: es, rep: gr, nextID: &mapID, hookPath: RTHook, rtMode: true}
 			w.runRangesOnly()
 			// 2. yields, sync calls, inventory
 			y := &rtWalker{w: w, rep: rep}
@@ -86,6 +90,7 @@ func InstrumentGenerated(simDir, pattern string) ([]*RTPkgReport, error) {
 			}
 		}
 		rep.MapSites = gr.Sites
+		rep.GoRewritten, rep.SyncBracketed, rep.SyncUnmodelled, rep.SelectsPolled = gr.GoRewritten, gr.SyncBracketed, gr.SyncUnmodelled, gr.SelectsPolled
 		// 3. registry
 		collectDecls(pkg.Syntax, rep)
 		if err := os.WriteFile(filepath.Join(pkgDir, "verif_registry.go"), []byte(registrySource(pkg.Name, rep)), 0o644); err != nil {
@@ -195,11 +200,14 @@ func (y *rtWalker) run() {
 		case *ast.BlockStmt:
 			if !skip[x] {
 				addYields(x.List)
+				w.concList(x.List)
 			}
 		case *ast.CaseClause:
 			addYields(x.Body)
+			w.concList(x.Body)
 		case *ast.CommClause:
 			addYields(x.Body)
+			w.concList(x.Body)
 		case *ast.GoStmt:
 			y.rep.GoStmts++
 		case *ast.SelectStmt:
